@@ -145,14 +145,36 @@ impl Insert {
         self
     }
 
-    pub(crate) fn exec<F>(
-        self,
+    /// Performs every check of `exec` without changing anything: `Ok` means
+    /// that `exec` on the same state cannot be refused.
+    pub(crate) fn check<F>(
+        &self,
         comp: &mut cfb::CompoundFile<F>,
-        string_pool: &mut StringPool,
+        string_pool: &StringPool,
         tables: &BTreeMap<String, Rc<Table>>,
     ) -> io::Result<()>
     where
-        F: Read + Write + Seek,
+        F: Read + Seek,
+    {
+        self.prepare(comp, string_pool, tables).map(|_| ())
+    }
+
+    /// Validates the new rows against the table and its current contents.
+    /// Returns the table, its current rows by key, and the (normalized) new
+    /// rows.
+    #[allow(clippy::type_complexity)]
+    fn prepare<F>(
+        &self,
+        comp: &mut cfb::CompoundFile<F>,
+        string_pool: &StringPool,
+        tables: &BTreeMap<String, Rc<Table>>,
+    ) -> io::Result<(
+        Rc<Table>,
+        BTreeMap<Vec<Value>, Vec<ValueRef>>,
+        Vec<Vec<Value>>,
+    )>
+    where
+        F: Read + Seek,
     {
         let table = match tables.get(&self.table_name) {
             Some(table) => table,
@@ -184,8 +206,10 @@ impl Insert {
         // treat it as one from here on, in particular when comparing keys.
         let new_rows: Vec<Vec<Value>> = self
             .new_rows
-            .into_iter()
-            .map(|values| values.into_iter().map(normalize_value).collect())
+            .iter()
+            .map(|values| {
+                values.iter().cloned().map(normalize_value).collect()
+            })
             .collect();
         // Read in the rows from the table.
         let stream_name = table.stream_name();
@@ -239,6 +263,22 @@ impl Insert {
                 self.table_name
             );
         }
+        Ok((table.clone(), rows_map, new_rows))
+    }
+
+    pub(crate) fn exec<F>(
+        self,
+        comp: &mut cfb::CompoundFile<F>,
+        string_pool: &mut StringPool,
+        tables: &BTreeMap<String, Rc<Table>>,
+    ) -> io::Result<()>
+    where
+        F: Read + Write + Seek,
+    {
+        let (table, mut rows_map, new_rows) =
+            self.prepare(comp, string_pool, tables)?;
+        let stream_name = table.stream_name();
+        let key_indices = table.primary_key_indices();
         // Insert the new rows into the table.
         for values in new_rows.into_iter() {
             let keys: Vec<Value> = key_indices
